@@ -152,11 +152,14 @@ pub struct E2e {
     sanitize: bool,
     /// the first two spin threads have their stacks in mappings BELOW the executable (fixed low addresses)
     low: bool,
+    /// the spin threads at positions >= 20 (or all, for small N) have their stack pointer BELOW their
+    /// stack region, inside the inaccessible guard page in front of it (an overflowed stack)
+    below: bool,
 }
 
 impl E2e {
     fn to_json(&self) -> Value {
-        json!({"e2e": {"n": self.n, "offsets": self.offsets, "limit": self.limit, "ctx_pos": self.ctx_pos, "sanitize": self.sanitize, "low": self.low}})
+        json!({"e2e": {"n": self.n, "offsets": self.offsets, "limit": self.limit, "ctx_pos": self.ctx_pos, "sanitize": self.sanitize, "low": self.low, "below": self.below}})
     }
     fn from_json(v: &Value) -> Option<E2e> {
         let e = v.get("e2e")?;
@@ -167,6 +170,7 @@ impl E2e {
             ctx_pos: e.get("ctx_pos").and_then(|x| x.as_u64()).map(|x| x as usize),
             sanitize: e.get("sanitize")?.as_bool()?,
             low: e.get("low").and_then(|x| x.as_bool()).unwrap_or(false),
+            below: e.get("below").and_then(|x| x.as_bool()).unwrap_or(false),
         })
     }
 }
@@ -188,7 +192,8 @@ fn run_e2e(c: &E2e) -> Vec<(String, String)> {
             p.pattern(3, "hole", "rw")
         };
         let off = c.offsets[i % c.offsets.len()];
-        let rsp = region + PAGE + off;
+        // `below`: inside the PROT_NONE guard page that precedes every pattern region
+        let rsp = if c.below && (c.n <= 20 || i + 1 >= 20) { region - PAGE + (off & 0xff8).max(8) } else { region + PAGE + off };
         let t = p.mkthread(Kind::Spin);
         p.set_gpr(t, RSP, rsp);
         p.start(t);
@@ -232,6 +237,29 @@ fn run_e2e(c: &E2e) -> Vec<(String, String)> {
         let len = th.stack.size as u64;
         let shortened = start + len != map_end;
         let tag = format!("thread at list position {pos} (sp page offset {}, limit {:?})", sp & 0xfff, o.size_limit);
+        if sp < regions[i].0 {
+            // sp in the guard page below the stack: the region is empty or begins at the first plausible
+            // stack mapping above sp (this thread's region), and the shortening rules still apply
+            if len == 0 {
+                continue;
+            }
+            if start != regions[i].0 {
+                fails.push(("guard-sp/region-not-at-first-mapping-above".into(), format!("{tag}: sp {sp:#x} lies in the guard page below [{:#x}, {map_end:#x}); the region starts at {start:#x}", regions[i].0)));
+            }
+            if start + len > map_end {
+                fails.push(("guard-sp/region-beyond-mapping".into(), format!("{tag}: region [{start:#x}, +{len}) runs past the mapping end {map_end:#x}")));
+            }
+            if shortened && (o.size_limit.is_none() || pos < 20 || Some(th.tid as i32) == ctx_tid || len > 2048) {
+                fails.push(("guard-sp/wrongly-shortened".into(), format!("{tag}: region [{start:#x}, +{len}) is shortened against the rules")));
+            }
+            if !c.sanitize {
+                let got = &bytes[th.stack.rva as usize..(th.stack.rva + th.stack.size) as usize];
+                if got != &p.read(start, len as usize)[..] {
+                    fails.push(("guard-sp/bytes-differ-from-target".into(), format!("{tag}: captured bytes differ from the target's memory")));
+                }
+            }
+            continue;
+        }
         if len == 0 {
             fails.push(("empty-stack-for-readable-sp".into(), format!("{tag}: no stack captured")));
             continue;
@@ -307,24 +335,30 @@ fn e2e_cases(thorough: bool) -> Vec<E2e> {
                 // place the interesting offsets at the end of the thread list
                 let nspin = n.saturating_sub(1).max(1);
                 let offsets: Vec<u64> = (0..nspin).map(|i| offs[(nspin - 1 - i) % offs.len()]).collect();
-                v.push(E2e { n, offsets, limit, ctx_pos: None, sanitize: false, low: false });
+                v.push(E2e { n, offsets, limit, ctx_pos: None, sanitize: false, low: false, below: false });
             }
         }
     }
     // crash context on a thread at position >= 20, with a limit that shortens the others
     for off in [8u64, 2048, 3000, 4088] {
-        v.push(E2e { n: 23, offsets: vec![off], limit: 0, ctx_pos: Some(20), sanitize: false, low: false });
-        v.push(E2e { n: 23, offsets: vec![off], limit: 3, ctx_pos: Some(21), sanitize: true, low: false });
+        v.push(E2e { n: 23, offsets: vec![off], limit: 0, ctx_pos: Some(20), sanitize: false, low: false, below: false });
+        v.push(E2e { n: 23, offsets: vec![off], limit: 3, ctx_pos: Some(21), sanitize: true, low: false, below: false });
     }
     // stacks in mappings below the executable (the dumper moves the entry-point mapping to the front of its list)
     for off in [0u64, 8, 2048, 4088] {
-        v.push(E2e { n: 4, offsets: vec![off], limit: -1, ctx_pos: None, sanitize: false, low: true });
-        v.push(E2e { n: 4, offsets: vec![off], limit: -1, ctx_pos: Some(0), sanitize: false, low: true });
-        v.push(E2e { n: 23, offsets: vec![off], limit: 0, ctx_pos: None, sanitize: false, low: true });
+        v.push(E2e { n: 4, offsets: vec![off], limit: -1, ctx_pos: None, sanitize: false, low: true, below: false });
+        v.push(E2e { n: 4, offsets: vec![off], limit: -1, ctx_pos: Some(0), sanitize: false, low: true, below: false });
+        v.push(E2e { n: 23, offsets: vec![off], limit: 0, ctx_pos: None, sanitize: false, low: true, below: false });
+    }
+    // overflowed stacks: sp in the guard page below the stack mapping, with and without the size limit / sanitising
+    for (n, limit, sanitize) in [(3usize, -1i64, false), (3, -1, true), (23, 0, false), (23, 0, true), (23, 3, false), (23, -1, false)] {
+        for off in [8u64, 2048, 4088] {
+            v.push(E2e { n, offsets: vec![off], limit, ctx_pos: None, sanitize, low: false, below: true });
+        }
     }
     // sanitize + limit (the sanitiser sees a copy shorter than the sp offset)
     for off in [2047u64, 2048, 2056, 4095] {
-        v.push(E2e { n: 22, offsets: vec![off], limit: 0, ctx_pos: None, sanitize: true, low: false });
+        v.push(E2e { n: 22, offsets: vec![off], limit: 0, ctx_pos: None, sanitize: true, low: false, below: false });
     }
     if thorough {
         // every in-page offset 0..4095 at a position >= 20: N = 64 gives 43 such threads per puppet
@@ -336,10 +370,10 @@ fn e2e_cases(thorough: bool) -> Vec<E2e> {
             while offsets.len() < 63 {
                 offsets.push(8);
             }
-            v.push(E2e { n: 64, offsets: offsets.clone(), limit: 0, ctx_pos: None, sanitize: false, low: false });
-            v.push(E2e { n: 64, offsets, limit: -1, ctx_pos: None, sanitize: false, low: false });
+            v.push(E2e { n: 64, offsets: offsets.clone(), limit: 0, ctx_pos: None, sanitize: false, low: false, below: false });
+            v.push(E2e { n: 64, offsets, limit: -1, ctx_pos: None, sanitize: false, low: false, below: false });
         }
-        v.push(E2e { n: 40, offsets: vec![8, 2048, 4088], limit: 3, ctx_pos: Some(30), sanitize: false, low: false });
+        v.push(E2e { n: 40, offsets: vec![8, 2048, 4088], limit: 3, ctx_pos: Some(30), sanitize: false, low: false, below: false });
     }
     v
 }
